@@ -155,8 +155,8 @@ S_RULE = ("each evaluation is one complete execution of the real JADE CLI entry 
 def c01(tier):
     if tier == "quick":
         tasks = input_grid_tasks(["C01"], ns=(1, 2, 3))
-        tasks += rep_tasks(["C01"], (1, 0), graphs=["chain3", "fork", "join", "diamondr", "twocomp"])
-        bounds = "inputs: G(1..3) x parameter grid at budget 0 (all job-finish orders); schedules: 5 REP graphs x 4 parameter sets at 1 preemption"
+        tasks += rep_tasks(["C01"], (1, 0), graphs=["chain3", "fork", "join", "diamondr", "twocomp", "indep3", "indep4"])
+        bounds = "inputs: G(1..3) x parameter grid at budget 0 (all job-finish orders); schedules: 7 REP graphs x 4 parameter sets at 1 preemption"
     else:
         tasks = input_grid_tasks(["C01"], ns=(1, 2, 3))
         tasks += input_grid_tasks(["C01"], ns=(4,), two_groups=False, max_nodes=(1, None), caps=(3,))
@@ -232,3 +232,197 @@ def selftest():
         boot.unmute_stdio()
     print(("SELFTEST OK " if ok else "SELFTEST FAILED ") + "; ".join(msgs) + f" ({time.monotonic() - t0:.1f}s)")
     return 0 if ok else 2
+
+
+# ------------------------------------------------------------------------------ C02..C06
+def bits(n):
+    return list(itertools.product((0, 1), repeat=n))
+
+
+def local_tasks(oracles, ns=(1, 2, 3), exits=False, flags=False):
+    tasks = []
+    for n in ns:
+        for gi, bb in enumerate(S.dags(n)):
+            blocked = [i for i in range(n) if bb[i]]
+            for nproc in (1, 2):
+                for ec in (bits(n) if exits else [None]):
+                    for fl in (bits(len(blocked)) if flags else [None]):
+                        cancel = None
+                        if fl is not None:
+                            cancel = [0] * n
+                            for i, b in zip(blocked, fl):
+                                cancel[i] = b
+                        sc = mk_scen(bb, dict(nproc=nproc), exit_codes=ec, cancel=cancel, mode="local",
+                                     actors=[])
+                        tasks.append(dict(id=f"local-g{n}.{gi}-q{nproc}-e{ec}-f{fl}", scen=sc,
+                                          oracles=["Obs"] + oracles, budget=(0, 0), cls="local"))
+    return tasks
+
+
+@check("C02")
+def c02(tier):
+    some_fail = lambda n: [None, (1,) + (0,) * (n - 1), (0,) * (n - 1) + (1,)] if n > 1 else [None, (1,)]
+    flags = lambda n: [None, (1,) * n]
+    if tier == "quick":
+        tasks = input_grid_tasks(["C02"], ns=(1, 2, 3))
+        tasks += rep_tasks(["C02"], (1, 0), graphs=["chain3", "chain3r", "fork", "join", "diamond", "diamondr"],
+                           exit_sets=some_fail, cancel_sets=flags)
+        tasks += local_tasks(["C02"])
+        bounds = "G(1..3) x parameter grid at budget 0; 6 REP graphs x 4 parameter sets x exit codes x flags at 1 preemption; local mode on G(1..3) x processes 1-2"
+    else:
+        tasks = input_grid_tasks(["C02"], ns=(1, 2, 3))
+        tasks += input_grid_tasks(["C02"], ns=(4,), two_groups=False, max_nodes=(1, None), caps=(3,))
+        tasks += rep_tasks(["C02"], (2, 0), exit_sets=some_fail, cancel_sets=flags)
+        tasks += local_tasks(["C02"], ns=(1, 2, 3, 4))
+        bounds = "G(1..4) at budget 0; all REP graphs at 2 preemptions; local mode on G(1..4)"
+    return explore_check("C02", tier, tasks, S_RULE, COMMON_ASSUMPTIONS, dict(bounds=bounds))
+
+
+C03_PARAMS = [
+    ("sz1-ta0", dict(size=1, try_add=False), None),
+    ("sz2-ta1", dict(size=2, try_add=True), None),
+    ("szn", dict(size=8), None),
+    ("2groups", dict(size=2), "split"),
+    ("mx1", dict(size=1, max_nodes=1), None),
+    ("local", dict(nproc=2), "local"),
+]
+
+
+def outcome_tasks(oracles, ns=(1, 2, 3), codes=(0, 1), budget=(0, 0), params=None):
+    tasks = []
+    for n in ns:
+        for gi, bb in enumerate(S.dags(n)):
+            blocked = [i for i in range(n) if bb[i]]
+            for ec in itertools.product(codes, repeat=n):
+                for fl in bits(len(blocked)):
+                    cancel = [0] * n
+                    for i, b in zip(blocked, fl):
+                        cancel[i] = b
+                    for tag, gkw, special in (params or C03_PARAMS):
+                        kw = {}
+                        assign = None
+                        if special == "split":
+                            if n < 2:
+                                continue
+                            assign = tuple(i % 2 for i in range(n))
+                        if special == "local":
+                            kw = dict(mode="local", actors=[])
+                        sc = mk_scen(bb, gkw, exit_codes=ec, cancel=cancel, assign=assign, **kw)
+                        tasks.append(dict(id=f"g{n}.{gi}-e{''.join(map(str, ec))}-f{''.join(map(str, fl))}-{tag}",
+                                          scen=sc, oracles=["Obs"] + oracles, budget=budget,
+                                          cls=("local" if special == "local" else _cls(bb, gkw))))
+    return tasks
+
+
+def fail_sets(n):
+    out = [(0,) * n]
+    for i in range(n):
+        out.append(tuple(1 if k == i else 0 for k in range(n)))
+    return out
+
+
+def flag_sets(n):
+    return [(0,) * n, (1,) * n]
+
+
+def _c0304(prop, tier):
+    if tier == "quick":
+        tasks = outcome_tasks([prop], ns=(1, 2, 3))
+        tasks += rep_tasks([prop], (1, 0), graphs=["chain3", "chain3r", "fork", "join", "diamond"],
+                           params=REP_PARAMS[:2], exit_sets=fail_sets, cancel_sets=flag_sets)
+        bounds = ("G(1..3) x exit codes {0,1}^n x cancel flags on blocked jobs x 6 parameter sets (incl. two groups, max-nodes 1, local) "
+                  "at budget 0 with all finish orders; 5 REP graphs x single failures x flags at 1 preemption with the recovery actor")
+    else:
+        tasks = outcome_tasks([prop], ns=(1, 2, 3))
+        tasks += outcome_tasks([prop], ns=(2, 3), codes=(0, 2, 255), params=C03_PARAMS[:2])
+        tasks += rep_tasks([prop], (2, 0), params=REP_PARAMS, exit_sets=fail_sets, cancel_sets=flag_sets)
+        bounds = "as quick plus exit codes {0,2,255}; all REP graphs x single failures x flags at 2 preemptions"
+    return explore_check(prop, tier, tasks, S_RULE, COMMON_ASSUMPTIONS, dict(bounds=bounds))
+
+
+@check("C03")
+def c03(tier):
+    return _c0304("C03", tier)
+
+
+@check("C04")
+def c04(tier):
+    return _c0304("C04", tier)
+
+
+SHOW_STATUS_REC = dict(name="rec", argv=["jade", "show-status", "-o", "{out}", "-n"], host="login2",
+                       guard="idle_incomplete")
+
+
+@check("C05")
+def c05(tier):
+    b = (1, 0) if tier == "quick" else (2, 0)
+    graphs = ["pair", "chain3", "fork", "join", "diamond", "twocomp"] if tier == "quick" else None
+    params = [("sz1-mx1", dict(size=1, max_nodes=1)), ("sz1-mx2", dict(size=1, max_nodes=2)),
+              ("sz1-mxN", dict(size=1, max_nodes=None)), ("sz2-mxN", dict(size=2, max_nodes=None))]
+    tasks = rep_tasks(["C05"], b, graphs=graphs, params=params)
+    # the recovery offered by show-status
+    for t in rep_tasks(["C05"], b, graphs=graphs or list(S.REP), params=params[1:3]):
+        n = len(t["scen"]["jobs"])
+        a = dict(SHOW_STATUS_REC)
+        a["repeat"] = n + 2
+        t["scen"]["actors"] = [a]
+        t["id"] += "-showstatus"
+        tasks.append(t)
+    tasks += input_grid_tasks(["C05"], ns=(1, 2, 3))
+    bounds = f"REP graphs x max-nodes {{1,2,unset}} at {b[0]} preemption(s) with the recovery actor (try-submit-jobs and show-status -n forms, re-armed up to n_jobs+2 times); G(1..3) x parameter grid at budget 0"
+    return explore_check("C05", tier, tasks, S_RULE, COMMON_ASSUMPTIONS, dict(bounds=bounds))
+
+
+@check("C06")
+def c06(tier):
+    b = (1, 0) if tier == "quick" else (2, 0)
+    tasks = []
+    graphs = ["pair", "fork", "join", "twocomp", "wide5"] if tier == "quick" else list(S.REP)
+    for mx in (1, 2):
+        for nproc in (1, 2, None):
+            for sz in (1, 2, 3):
+                if tier == "quick" and sz == 3 and nproc == 1:
+                    continue
+                tasks += rep_tasks(["C06"], b, graphs=graphs,
+                                   params=[(f"sz{sz}-mx{mx}-q{nproc}", dict(size=sz, max_nodes=mx, nproc=nproc))])
+    # all 3-job DAGs at budget 0/1
+    for gi, bb in enumerate(S.dags(3)):
+        for mx in (1, 2):
+            for nproc in (1, 2, None):
+                sc = mk_scen(bb, dict(size=2, max_nodes=mx, nproc=nproc))
+                tasks.append(dict(id=f"g3.{gi}-sz2-mx{mx}-q{nproc}", scen=sc, oracles=["Obs", "C06"],
+                                  budget=(1, 0) if tier == "thorough" else (0, 0), cls="grid"))
+    tasks += local_tasks(["C06"], ns=(2, 3))
+    bounds = f"REP graphs x max-nodes {{1,2}} x processes {{1,2,unset/2 CPUs}} x batch sizes 1-3 at {b[0]} preemption(s); G(3) grid; local mode"
+    return explore_check("C06", tier, tasks, S_RULE, COMMON_ASSUMPTIONS, dict(bounds=bounds))
+
+
+# ------------------------------------------------------------------------------ mode E checks
+from . import modee, echecks  # noqa: E402,F401
+
+E_ASSUMPTIONS = [
+    "finite domains listed in coverage.domain_sizes are enumerated completely; nothing outside them is claimed",
+    "seams: jade.utils.run_command._run_command (scripted command answers), ResourceMonitorAggregator._get_stats (scripted samples); everything above the seam is the real code",
+]
+
+
+@check("C18")
+def c18(tier):
+    return modee.enum_check(
+        "C18", tier, ["c18_script", "c18_status", "c18_submit", "c18_retry"],
+        "cases: (a) every assignment of {unset, value1, value2} to the 9 optional SLURM fields, rendered for 2 groups through HpcManager.submit(dry_run) and compared byte-for-byte with a reference rendering; "
+        "(b) squeue outputs with 0-2 batches over all 24 SLURM states x 8 whitespace shapes through HpcStatusCollector/AsyncHpcSubmitter.is_complete; "
+        "(c) 7 sbatch answers through JobQueue.submit(AsyncHpcSubmitter); (d) every outcome sequence over {ok, transient, listed-permanent} of length retries+1, retries 0-3, 3 calling modes through run_command. "
+        "non-trivial: at least one optional field set / retries > 0 / any status case",
+        E_ASSUMPTIONS + ["an AssertionError of the status parser on a malformed line is not counted as 'treated as finished' (recorded as a note)"])
+
+
+@check("C20")
+def c20(tier):
+    return modee.enum_check(
+        "C20", tier, ["c20_events", "c20_stats", "c20_tallies"],
+        "cases: (a) all multisets of <=3 (quick) / <=4 (thorough) events over 2 names x 3 timestamps (tie, no fractional part) x 2 payloads, distributed over 1-3 per-process event files in every way, "
+        "written by the real event logger, consolidated by EventsSummary, read back, re-read and re-consolidated; (b) every sample sequence of length 1-4 over {0,1,2,5} through ResourceMonitorAggregator; "
+        "(c) every result set over {successful, failed(1), failed(2), canceled, missing}^n, n<=4 through JobSubmitter._handle_completion and ResultsSummary. non-trivial: more than one event/sample",
+        E_ASSUMPTIONS)
